@@ -17,6 +17,14 @@ pub const ALPHABET: &[&str] = &[
     "=", "+", "/",
 ];
 
+/// Code points that Unicode normalisation / the PRECIS profiles rewrite, chosen so that the rewritten form is longer,
+/// shorter, or of a different class than the input (buffers sized from the raw input, offsets kept across the rewrite):
+/// U+0958 (NFC: 3 -> 6 bytes), U+1D15E (4 -> 8 bytes), U+212B (3 -> 2 bytes), U+0340 (singleton), Hangul jamo pair
+/// (two -> one), U+FF21 fullwidth, U+3000 / U+1680 non-ASCII spaces, U+00AD / U+200B default-ignorables, DEL, NUL.
+pub const NORMALISATION: &[&str] = &[
+    "\u{958}", "\u{1d15e}", "\u{212b}", "\u{340}", "\u{1100}", "\u{1161}", "\u{ff21}", "\u{3000}", "\u{1680}", "\u{ad}", "\u{200b}", "\u{7f}", "\u{0}",
+];
+
 fn sclass(s: &str) -> String {
     let mut c = vec![];
     if s.is_empty() {
@@ -62,6 +70,29 @@ fn strings_upto3(four: bool) -> Vec<String> {
                     }
                 }
             }
+        }
+    }
+    // the wide alphabet (core + normalisation-sensitive code points): every string of length <= 3 (thorough: <= 4) that
+    // contains at least one of the latter
+    let wide: Vec<&str> = ALPHABET.iter().chain(NORMALISATION.iter()).copied().collect();
+    let max_wide = if four { 4 } else { 3 };
+    let mut stack: Vec<(String, bool, usize)> = vec![(String::new(), false, 0)];
+    while let Some((pre, has, len)) = stack.pop() {
+        if has && len > 0 {
+            v.push(pre.clone());
+        }
+        if len < max_wide {
+            for (i, c) in wide.iter().enumerate() {
+                stack.push((format!("{}{}", pre, c), has || i >= ALPHABET.len(), len + 1));
+            }
+        }
+    }
+    // growth in front of a long tail, and at the length limits
+    for c in NORMALISATION {
+        for n in [60usize, 127, 254, 505, 506, 507, 508, 760] {
+            v.push(format!("{}{}", c, menu::rep('a', n)));
+            v.push(format!("{}{}", menu::rep('a', n), c));
+            v.push(c.repeat(n / 4));
         }
     }
     for n in [507usize, 508, 509, 510, 762, 763, 764] {
@@ -696,7 +727,7 @@ pub fn run(ctx: &RunCtx) -> i32 {
         rep,
         Finish {
             level: "exploration",
-            rule: format!("{} strings (every string of length <=4 (thorough: <=5) over a {}-symbol alphabet incl. quotes, backslash, TAB, 2-/3-/4-byte and combining characters, plus lengths 507..510 and 762..764) through every string-taking constructor / conversion (UserName, Realm, Nonce, Nonce::new_nonce_cookie x 4 flag sets, Software, Padding, ErrorCode x 7 codes, UserHash, HMACKey short- and long-term x 3 positions x 4 algorithms) and the accessors of every value built; every nonce 'obMatJos2' + 4 alphabet symbols + {} suffixes through is_nonce_cookie / security_features; every u16 through MessageType/MessageMethod/AttributeType/AlgorithmId/ErrorCode/IcmpCode conversions, every u8 through MessageClass/AddressFamily/IcmpType; every attribute of the menu (and decoded Unknown / integrity / fingerprint forms) through all 39 is_/as_ accessors, the matching expect_, attribute_type, Debug, Clone; build(k<=3).clone.mutate-either(j<=2).read-both for PasswordAlgorithms (2 construction routes), UnknownAttributes and the agent's StunAttributes against a Vec model. Non-trivial = distinct input for which a value was actually constructed and exercised", n_str, ALPHABET.len(), suffixes.len()),
+            rule: format!("{} strings (every string of length <=4 (thorough: <=5) over a {}-symbol alphabet incl. quotes, backslash, TAB, 2-/3-/4-byte and combining characters, plus every string of length <=3 (thorough <=4) over that alphabet widened by 13 normalisation-sensitive code points (NFC growing / shrinking, Hangul jamo, fullwidth, non-ASCII spaces, default-ignorables, DEL, NUL) containing at least one of them, those code points before / after / repeated at lengths around 127 / 254 / 508 / 763, plus lengths 507..510 and 762..764) through every string-taking constructor / conversion (UserName, Realm, Nonce, Nonce::new_nonce_cookie x 4 flag sets, Software, Padding, ErrorCode x 7 codes, UserHash, HMACKey short- and long-term x 3 positions x 4 algorithms) and the accessors of every value built; every nonce 'obMatJos2' + 4 alphabet symbols + {} suffixes through is_nonce_cookie / security_features; every u16 through MessageType/MessageMethod/AttributeType/AlgorithmId/ErrorCode/IcmpCode conversions, every u8 through MessageClass/AddressFamily/IcmpType; every attribute of the menu (and decoded Unknown / integrity / fingerprint forms) through all 39 is_/as_ accessors, the matching expect_, attribute_type, Debug, Clone; build(k<=3).clone.mutate-either(j<=2).read-both for PasswordAlgorithms (2 construction routes), UnknownAttributes and the agent's StunAttributes against a Vec model. Non-trivial = distinct input for which a value was actually constructed and exercised", n_str, ALPHABET.len(), suffixes.len()),
             assumptions: vec!["the documented expect_* panic on a type mismatch is not exercised".into()],
             required_symbols: vec!["string-constructors", "cookie-nonces", "scalar-sweeps", "attribute-accessors", "clone-sequences", "cookie-flags-roundtrip", "extra-api"],
             min_outcomes: 2,
